@@ -2,6 +2,7 @@ import DymVerif.Driver.Common
 import DymVerif.Base.Dec
 import DymVerif.Model.Lockup
 import DymVerif.Model.LockupChain
+import DymVerif.Model.LockupRefs
 /-
   Driver/C14 — line protocol over M-Lockup.
 
@@ -16,14 +17,20 @@ import DymVerif.Model.LockupChain
     restart                             (ExportGenesis -> InitGenesis on a fresh application: `Lockup.restart`)
     setparams <minDur> <fee> <allowed a,b|->   (params subspace: `Lockup.setParams`)
 
-  Every op goes through `Lockup.cstep` (Model/LockupChain): the parameters are part of the state.
+  Every op goes through `Lockup.rcstep` (Model/LockupRefs): the parameters and the lock-reference store
+  are part of the state; the lock table, balances … it computes are those of `Lockup.cstep`
+  (Props/C14Refs `refs_machine_is_lockup`).  No actor of a trace is a blocked bank recipient.
 
   Observation = `<out> L=… last=… M=… B=… Q=… A=… S=… W=… O=… U=… t=… h=… P=… G=… I=…` (see `render`):
   locks (by-id queries), last id, module balances, actor balances, lock ids by account, accumulation
   at the probe durations, Σ locks per denom, Σ locks per denom with duration >= probe, Σ locks per
   owner and denom, ids of the locks that are due now, the parameters in force
   (minDur:fee:allow-list), the ids of `GetPeriodLocks` in reference-walk order (`exportGenesis`),
-  the ids the end-time iterator of the EndBlocker yields.
+  the ids the end-time iterator of the EndBlocker yields; then the index-driven answers of the
+  reference store: `R=` number of reference keys, `Iw=` the end-time walk in its own order, `Gw=`
+  `GetPeriodLocks` by the reference walk, `H=` per lock `id>ids` of
+  GetAccountLockedDurationNotUnlockingOnly(owner, denom, duration), `AL= AU= AW=` account locked /
+  unlocking / unlockable coins, `LD=` GetLocksLongerThanDurationDenom per denom and every third probe.
 -/
 namespace DymVerif.Driver.C14
 open DymVerif DymVerif.Driver DymVerif.Lockup
@@ -31,6 +38,7 @@ open DymVerif DymVerif.Driver DymVerif.Lockup
 structure St where
   p : Params
   s : State
+  refs : Refs := []
   nA : Nat
   nD : Nat
   probes : List Nat
@@ -62,7 +70,43 @@ def lockStr (l : Lock) : String :=
   let e := match l.endTime with | none => "-" | some t => toString t
   s!"{l.id}:{l.owner}:{l.duration}:{e}:{l.denom}:{l.amount}"
 
-def render (x : St) (o : Out) : String :=
+def faultStr : RFault → String
+  | .refClash => "ref-clash" | .dangling => "dangling-ref" | .blocked => "blocked-recipient"
+
+def routStr : ROut → String
+  | .out o => outStr o
+  | .fault f => "fault:" ++ faultStr f
+
+def idsStr (o : Option (List Lock)) : String :=
+  match o with
+  | none => "panic"
+  | some ls => join "." (ls.map (fun l => toString l.id))
+
+def optNat (o : Option Nat) : String :=
+  match o with
+  | none => "panic"
+  | some n => toString n
+
+/-- the index-driven answers (Model/LockupRefs) -/
+def renderRefs (x : St) : String :=
+  let rs : RState := ⟨x.s, x.refs⟩
+  let acts := List.range x.nA
+  let dens := List.range x.nD
+  let Iw := join "." ((maturedWalk x.refs x.s.now).map toString)
+  let Gw := idsStr (periodLocksR rs)
+  let H := join "," (x.s.locks.map (fun l =>
+    s!"{l.id}>{idsStr (accountLockedDurationNotUnlockingOnly rs l.owner l.denom l.duration)}"))
+  let AL := join ";" (acts.map (fun a => join "," (dens.map (fun d => optNat (accountLockedCoinsR rs a d)))))
+  let AU := join ";" (acts.map (fun a => join "," (dens.map (fun d => optNat (accountUnlockingCoinsR rs a d)))))
+  let AW := join ";" (acts.map (fun a => join "," (dens.map (fun d => optNat (accountUnlockableCoinsR rs a d)))))
+  let third := (x.probes.zipIdx.filter (fun pi => pi.2 % 3 == 0)).map (·.1)
+  let LD := join ";" (dens.map (fun d => join "," (third.map (fun k =>
+    match locksLongerThanDurationDenomR rs d k with
+    | none => "panic"
+    | some ls => join "." ((Genesis.sortBy Genesis.ltNat (ls.map (·.id))).map toString)))))
+  s!" R={x.refs.length} Iw={Iw} Gw={Gw} H={H} AL={AL} AU={AU} AW={AW} LD={LD}"
+
+def render (x : St) (o : ROut) : String :=
   let s := x.s
   let acts := List.range x.nA
   let dens := List.range x.nD
@@ -80,7 +124,7 @@ def render (x : St) (o : Out) : String :=
   -- `GetPeriodLocks` in the order it returns (= the exported genesis), the EndBlocker's iterator
   let G := join "." ((exportGenesis s).locks.map (fun l => toString l.id))
   let I := join "." ((s.locks.filter (matured s.now)).map (fun l => toString l.id))
-  s!"{outStr o} L={L} last={s.lastId} M={M} B={B} Q={Q} A={A} S={S} W={W} O={O} U={U} t={s.now} h={s.height} P={P} G={G} I={I}"
+  s!"{routStr o} L={L} last={s.lastId} M={M} B={B} Q={Q} A={A} S={S} W={W} O={O} U={U} t={s.now} h={s.height} P={P} G={G} I={I}" ++ renderRefs x
 
 def coinArg (f : List String) : Option (Option (Denom × Nat)) :=
   match f with
@@ -89,8 +133,8 @@ def coinArg (f : List String) : Option (Option (Denom × Nat)) :=
   | _ => none
 
 def applyC (x : St) (op : COp) : St × String :=
-  let r := cstep ⟨x.p, x.s⟩ op
-  let x' := { x with p := r.1.p, s := r.1.s }
+  let r := rcstep (fun _ => false) ⟨⟨x.p, x.s⟩, x.refs⟩ op
+  let x' := { x with p := r.1.c.p, s := r.1.c.s, refs := r.1.refs }
   (x', render x' r.2)
 
 def apply (x : St) (op : Op) : St × String := applyC x (.msg op)
@@ -99,12 +143,12 @@ def stepLine (x : St) (f : List String) : St × String :=
   match f with
   | ["reset", md, fee, al, nA, nD, fd, pr] =>
       let c := cinit ⟨nat! md, nat! fee, csvNats al, nat! fd⟩ (fun _ _ => 0) 0 1
-      let x' : St := { p := c.p, s := c.s, nA := nat! nA, nD := nat! nD, probes := csvNats pr }
+      let x' : St := { p := c.p, s := c.s, refs := [], nA := nat! nA, nD := nat! nD, probes := csvNats pr }
       (x', "ok")
   | ["fund", a, d, amt] =>
       let s := x.s
       let x' := { x with s := { s with bal := updBal s.bal (nat! a) (nat! d) (s.bal (nat! a) (nat! d) + nat! amt) } }
-      (x', render x' (.ok 0))
+      (x', render x' (.out (.ok 0)))
   | ["lock", a, d, amt, dur] => apply x (.lock (nat! a) (nat! d) (natClamp amt) (natClamp dur))
   | "unlock" :: a :: id :: rest =>
       match coinArg rest with
